@@ -872,7 +872,7 @@ func (fx *FnExec) perWrite() bool {
 
 // writeAllowed: the written object is fresh, or the location is listed in the contract's modifies clause.
 func (fx *FnExec) writeAllowed(ref Term, key string) Term {
-	alts := []Term{Gt(ref, fx.entry.wm)}
+	alts := []Term{Gt(ref, fx.entry.wm), Eq(ref, Int(0))} // nothing is ever written through nil (elems of a nil slice: no elements)
 	if fx.allowedWhole[key] {
 		return True
 	}
